@@ -42,6 +42,7 @@ class ProtoGhost:
         self.delays = []            # (site, delay value, callback)
         self.suspensions = []       # hooks run at every suspension point: f(ex, what)
         self.on_tx = []             # hooks run at every transmission: f(ex, transport, payload)
+        self.connect_failed = False
         self.lock_events = []
 
 
@@ -114,8 +115,10 @@ class GConnect:
         suspend(ex, "connect")
         k = ex.choose(3 if self.kind == "tcp" else 2, tag="connect")
         if k == 1:
+            g.connect_failed = True
             raise PyRaise(OSError("connect failed"))
         if k == 2:
+            g.connect_failed = True
             raise PyRaise(ConnectionRefusedError("connection refused"))
         t = GTransport(self.kind, False, g.loop)
         ex.new_object(t)
@@ -183,8 +186,9 @@ class GTimer:
         g = pg(ex)
         a = self.armed
         if isinstance(a, SBool):
-            a = ex.branch(a.t, tag="timer.armed")
-        if a:
+            # no fork: the count of armed timeouts drops by one exactly if this handle was still armed
+            g.armed = mk_int(iterm(g.armed) - z3.If(a.t, 1, 0))
+        elif a:
             g.armed = _inc(g.armed, -1)
         self.armed = False
         g.events.append(("timer.cancel", self))
@@ -355,6 +359,7 @@ class GWaitFor:
         g.delays.append(("wait_for", self.timeout, None))
         if ex.choose(2, tag="wait_for") == 1:
             # the inner awaitable is cancelled at a suspension point before it had an effect that survives
+            g.connect_failed = True
             raise PyRaise(asyncio.TimeoutError())
         return aio.await_value(ex, self.aw)
 
